@@ -1,7 +1,7 @@
 (* ===== C10 : model-spec metadata indexes the generated columns truthfully ===== *)
 From Coq Require Import List NArith Bool Arith Permutation.
 Import ListNotations.
-Require Import StrOrder Struct SpecMeta SpecMetaLaws Mat ReplayLaws.
+Require Import StrOrder Struct SpecMeta SpecMetaLaws SubsetLaws Mat ReplayLaws.
 Open Scope nat_scope.
 
 (* the reported column names are the actual column labels of the matrix the model builds *)
@@ -31,6 +31,33 @@ Theorem C10_lookup_by_column_name : forall rows name j,
   column_index rows name = Some j -> nth_error (column_names rows) j = Some name.
 Proof. exact column_index_truthful. Qed.
 
+(* variable-to-column indices: exactly the positions of the columns of the terms that use the variable *)
+Theorem C10_variable_indices_exact : forall rows v j, NoDup (map (fun r => tkey (r_factors r)) rows) ->
+  (In j (variable_indices rows v) <->
+   exists i r, nth_error rows i = Some r /\ uses v r = true /\ start_of rows i <= j < start_of rows i + length (r_cols r)).
+Proof. exact variable_indices_exact. Qed.
+(* a spec subset to chosen terms: defined exactly when every chosen term is a term of the spec; its rows are those of the chosen terms in
+   the order chosen; and its column names are exactly the parent's names at the parent's positions of those terms (get_term_indices) *)
+Theorem C10_subset_defined_iff : forall rows chosen, NoDup (map (fun r => tkey (r_factors r)) rows) ->
+  ((exists sub, subset rows chosen = Some sub) <-> Forall (fun c => In (tkey c) (map (fun r => tkey (r_factors r)) rows)) chosen).
+Proof. exact subset_defined_iff. Qed.
+Theorem C10_subset_keeps_chosen_order : forall rows chosen sub, NoDup (map (fun r => tkey (r_factors r)) rows) ->
+  subset rows chosen = Some sub -> map (fun r => tkey (r_factors r)) sub = map tkey chosen.
+Proof. exact subset_keeps_chosen_order. Qed.
+Theorem C10_subset_is_parent_columns : forall rows, NoDup (map (fun r => tkey (r_factors r)) rows) -> forall chosen sub,
+  subset rows chosen = Some sub ->
+  exists ix, get_term_indices rows chosen = Some ix /\ map (nth_error (column_names rows)) ix = map Some (column_names sub).
+Proof. exact subset_is_parent_columns. Qed.
+
+Example C10_subset_example :
+  let rows := [ {| r_factors := [[49]%N]; r_cols := [[73]%N]; r_vars := [] |};
+                {| r_factors := [[66]%N; [65]%N]; r_cols := [[120]%N; [121]%N]; r_vars := [[66]%N; [65]%N] |};
+                {| r_factors := [[97]%N]; r_cols := [[97]%N]; r_vars := [[97]%N] |} ] in
+  NoDup (map (fun r => tkey (r_factors r)) rows) /\
+  option_map column_names (subset rows [[[97]%N]; [[65]%N; [66]%N]]) = Some [[97]%N; [120]%N; [121]%N] /\
+  get_term_indices rows [[[97]%N]; [[65]%N; [66]%N]] = Some [3; 1; 2] /\ subset rows [[[98]%N]] = None.
+Proof. split; [repeat constructor; cbn; intuition discriminate | vm_compute; auto]. Qed.
+
 Example C10_example :
   let rows := [ {| r_factors := [[49]%N]; r_cols := [[73]%N]; r_vars := [] |};
                 {| r_factors := [[66]%N; [65]%N]; r_cols := [[120]%N; [121]%N]; r_vars := [[66]%N; [65]%N] |};
@@ -46,4 +73,9 @@ Print Assumptions C10_each_range_contiguous.
 Print Assumptions C10_lookup_by_term.
 Print Assumptions C10_lookup_any_factor_order.
 Print Assumptions C10_lookup_by_column_name.
+Print Assumptions C10_variable_indices_exact.
+Print Assumptions C10_subset_defined_iff.
+Print Assumptions C10_subset_keeps_chosen_order.
+Print Assumptions C10_subset_is_parent_columns.
+Print Assumptions C10_subset_example.
 Print Assumptions C10_example.
